@@ -12,7 +12,7 @@ RULE = ("two real dilated wormholes (Noise stand-in) run a random application sc
         "subchannel, closes, some operations issued while no connection exists - while the selected L2 "
         "link is killed: cut at a swept scheduler step (every step of the baseline in the thorough tier), "
         "one direction blackholed first (data delivered but acks lost, and the reverse) then cut, "
-        "several kills in a row (during the replay after a reconnect). TCP chunking down to single bytes "
+        "several kills in a row (during the replay after a reconnect), long-lived sessions with 8-24 kills. TCP chunking down to single bytes "
         "makes kills land mid-frame. Non-trivial = at least one effective kill and one delivered write; "
         "distinct = scheduler decision traces.")
 ASSUMPTIONS = ["Noise stand-in (spec-conformant NNpsk0)", "bounded progress: 600 virtual seconds after the last kill"]
@@ -26,6 +26,8 @@ def cases(tier, seed, prep=None):
     base = seed * 1000003 + 1000000
     for i in range(140 if q else 3000):
         out.append({"kind": "random", "seed": base + i})
+    for i in range(16 if q else 400):
+        out.append({"kind": "random", "seed": base + 40000 + i, "nkills": [8, 12, 16, 24][i % 4]})
     bases = range(3) if q else range(20)
     for b in bases:
         for k in range(60, 420, 6 if q else 1):
@@ -46,11 +48,17 @@ def run_case(spec):
     drv = ScriptDriver(dp, rng, late_listen=0.2)
     sch = Scheduler(world, drv, strategy=rng.choice(["random", "pct", "netfirst"]), chunking=rng.choice(["mixed", "whole"]),
                     tiny_budget=rng.choice([0, 60, 300]))
-    kills = {"done": 0, "skipped": 0}
+    kills = {"done": 0, "skipped": 0, "retries": 0}
 
     def kill(how):
         link = dp.selected_link()
         if link is None:
+            if spec.get("nkills") and kills["retries"] < 400:
+                # long-lived sessions: the kill waits for the next generation instead of being skipped
+                kills["retries"] += 1
+                sch.faults.append((world.step + rng.randint(5, 25), lambda: kill(how), "kill (retry)"))
+                sch.faults.sort(key=lambda f: f[0])
+                return
             kills["skipped"] += 1
             return
         kills["done"] += 1
@@ -65,8 +73,9 @@ def run_case(spec):
             sch.faults.append((world.step + rng.randint(3, 30), lambda: world.reactor.cut(link), "cut after blackhole"))
             sch.faults.sort(key=lambda f: f[0])
     if spec["kind"] == "random":
-        for _ in range(rng.choice([0, 1, 1, 2, 3, 5])):
-            sch.faults.append((rng.randint(40, 500), (lambda h=rng.choice(["cut", "cut", "lose-acks", "lose-data"]): kill(h)), "kill"))
+        nk = spec.get("nkills") or rng.choice([0, 1, 1, 2, 3, 5])
+        for _ in range(nk):
+            sch.faults.append((rng.randint(40, 500 if nk < 8 else 850), (lambda h=rng.choice(["cut", "cut", "lose-acks", "lose-data"]): kill(h)), "kill"))
     else:
         sch.faults.append((spec["kill_at"], lambda: kill(spec["how"]), "kill " + spec["how"]))
         for gap in spec.get("again", []):
@@ -88,7 +97,7 @@ def run_case(spec):
             if closed and not (("lost",) in [e[:1] for e in p.events] and ("lost",) in [e[:1] for e in q.events]):
                 return False
         return dp.both_connected() or not drv.opens
-    end1 = sch.run(900)
+    end1 = sch.run(900 + 150 * (spec.get("nkills") or 0))
     drv.budget["open"] = {"A": 0, "B": 0}
     drv.budget["write"] = 0
     drv.budget["close"] = 0
